@@ -24,7 +24,13 @@
    [all_injectables r]     robot_injectables plus ALL components;
    [injectables_with r b]  robot_injectables plus the components b;
    [pick inj c n]          inj[n] if that is not None, else inj["<c>_<n>"];
-   [comp_has d n]          hasattr(component, n) before injection;
+   [comp_has d n]          hasattr(component, n) when _setup_vars looks at it
+                           ([mode_has], [t_has tg]: the same for a mode / any
+                           target): "logger", a class-level value, one set in
+                           __init__ (PConst, PParam), or a descriptor / marker
+                           the framework has bound by then -- magicbot.tunable
+                           after setup_tunables, will_reset_to (PBound v: it
+                           reads v);
    [subclass]              CPython's isinstance, an input (Section variable):
                            the theorems hold for every such relation;
    [env]                   what wpilib.DriverStation reports while the robot
@@ -434,6 +440,33 @@ Theorem C08_env_attr_exact_modes : forall e r s, startup_in subclass e r = Ok s 
       attr_at r (trace_of r s) (TMode (m_name md)) n = Is (Some o).
 Proof. exact (attr_exact_mode_in subclass). Qed.
 
+(* ---------------------------------------------------------------------- *)
+(* Attributes that already have a value -- [t_has tg n = true]: a class-level *)
+(* value, one set in __init__, or a descriptor / marker the framework has     *)
+(* bound when _setup_vars looks (`gain: float = magicbot.tunable(0.25)`,       *)
+(* will_reset_to; [PBound] in a classdef / modedef) -- are left untouched:     *)
+(* C08_untouched_preset says they read what they read before; C08_fail_iff     *)
+(* that they are never the reason start-up fails (attr_fault needs t_has =     *)
+(* false); and:                                                              *)
+(* ---------------------------------------------------------------------- *)
+
+(* nothing is ever written into the target under such a name ... *)
+Theorem C08_set_attr_never_written : forall r s tg n upd,
+  startup subclass r = Ok s -> NoDup (map t_ref (targets r)) ->
+  In tg (targets r) -> t_has tg n = true ->
+  In (EvInject (t_ref tg) upd) (trace_of r s) -> ~ In n (map fst upd).
+Proof. exact (set_attr_never_written subclass). Qed.
+
+(* ... and what its annotation says (a type the robot could or could not serve,
+   a non-class, no annotation) is never looked at: _setup_vars of two targets
+   with the same name, the same hasattr and the same public UNSET annotations
+   gives the same update or the same error. *)
+Theorem C08_set_attr_annotation_irrelevant : forall tg tg' inj,
+  t_ref tg = t_ref tg' -> (forall n, t_has tg n = t_has tg' n) ->
+  requested (t_has tg) (t_hints tg) = requested (t_has tg') (t_hints tg') ->
+  setup_vars subclass tg inj = setup_vars subclass tg' inj.
+Proof. exact (set_attr_annotation_irrelevant subclass). Qed.
+
 End C08.
 
 (* ====================================================================== *)
@@ -736,6 +769,78 @@ Proof.
   eexists. split; [vm_compute; reflexivity|]. split; vm_compute; reflexivity.
 Qed.
 
+(* `gain: float = tunable(0.25)` (class 4 = float) next to an injected `gyro`, in
+   a component and in an autonomous mode; the robot ALSO stores a float under
+   "gain" and one under "tuned_gain".  Start-up succeeds, only gyro is written,
+   gain still reads the tunable's own value -- also when its annotation is not
+   a class at all. *)
+Definition o_tunable_value := {| oid := 700; ocls := 4; otruthy := true |}.    (* what the bound tunable reads *)
+Definition o_robot_gain := {| oid := 11; ocls := 4; otruthy := true |}.
+Definition o_robot_tuned_gain := {| oid := 12; ocls := 4; otruthy := true |}.
+Definition k_tuned (gain_hint : hint) (preset : list (name * pval)) : classdef :=
+  {| k_cls := 24; k_init_hints := []; k_hints := [("gyro", HType 10); ("gain", gain_hint)];
+     k_preset := preset; k_setup := true |}.
+Definition d_tuned gain_hint preset := {| c_oid := 105; c_truthy := true; c_class := k_tuned gain_hint preset |}.
+Definition m_tuned (preset : list (name * pval)) : modedef :=
+  {| m_name := "auto"; m_hints := [("gain", HType 4); ("gyro", HType 10)]; m_preset := preset; m_setup := true |}.
+Definition tuned_dir (with_gain : bool) : list rattr :=
+  (if with_gain then [ {| ra_name := "gain"; ra_kind := KPlain; ra_value := Some o_robot_gain |} ] else [])
+  ++ [ {| ra_name := "gyro"; ra_kind := KPlain; ra_value := Some o_gyro |};
+       {| ra_name := "tuned_gain"; ra_kind := KPlain; ra_value := Some o_robot_tuned_gain |} ].
+Definition tuned_robot (with_gain : bool) gain_hint (preset : list (name * pval)) : robot :=
+  {| r_dir := tuned_dir with_gain; r_hints := [("tuned", RClass (d_tuned gain_hint preset))];
+     r_modes := [m_tuned preset] |}.
+Definition bound_gain : list (name * pval) := [("gain", PBound (Some o_tunable_value))].
+Definition tuned_started gain_hint : started :=
+  {| st_comps := [ {| cr_name := "tuned"; cr_def := d_tuned gain_hint bound_gain; cr_kwargs := [] |} ];
+     st_updates := [ (TComp "tuned", [("gyro", o_gyro)]); (TMode "auto", [("gyro", o_gyro)]) ] |}.
+Example C08_nv_bound_attribute_untouched :
+  startup ex_sub (tuned_robot true (HType 4) bound_gain) = Ok (tuned_started (HType 4)) /\
+  startup ex_sub (tuned_robot false (HType 4) bound_gain) = Ok (tuned_started (HType 4)) /\
+  startup ex_sub (tuned_robot true HNonType bound_gain) = Ok (tuned_started HNonType) /\
+  let r := tuned_robot true (HType 4) bound_gain in
+  let tr := trace_of r (tuned_started (HType 4)) in
+  attr_at r (before_first_setup tr) (TComp "tuned") "gain" = Is (Some o_tunable_value) /\
+  attr_at r tr (TComp "tuned") "gain" = Is (Some o_tunable_value) /\
+  attr_at r tr (TMode "auto") "gain" = Is (Some o_tunable_value) /\
+  attr_at r tr (TComp "tuned") "gyro" = Is (Some o_gyro).
+Proof. repeat split; vm_compute; reflexivity. Qed.
+(* the hypotheses of C08_untouched_preset / C08_set_attr_never_written hold for both targets *)
+Example C08_nv_bound_attribute_hypotheses :
+  let r := tuned_robot true (HType 4) bound_gain in
+  NoDup (map t_ref (targets r)) /\
+  In (comp_target "tuned" (d_tuned (HType 4) bound_gain)) (targets r) /\
+  In (mode_target (m_tuned bound_gain)) (targets r) /\
+  t_has (comp_target "tuned" (d_tuned (HType 4) bound_gain)) "gain" = true /\
+  t_has (mode_target (m_tuned bound_gain)) "gain" = true /\
+  In (EvInject (TComp "tuned") [("gyro", o_gyro)]) (trace_of r (tuned_started (HType 4))) /\
+  pick (all_injectables r) "tuned" "gain" = Some o_robot_gain.
+Proof.
+  repeat split; try (vm_compute; reflexivity); try (vm_compute; tauto).
+  repeat constructor; simpl; intuition discriminate.
+Qed.
+(* the two annotations of C08_nv_bound_attribute_untouched meet C08_set_attr_annotation_irrelevant *)
+Example C08_nv_bound_annotation_irrelevant_hypotheses :
+  let tg := comp_target "tuned" (d_tuned (HType 4) bound_gain) in
+  let tg' := comp_target "tuned" (d_tuned HNonType bound_gain) in
+  t_ref tg = t_ref tg' /\ (forall n, t_has tg n = t_has tg' n) /\
+  requested (t_has tg) (t_hints tg) = requested (t_has tg') (t_hints tg') /\ t_hints tg <> t_hints tg'.
+Proof. repeat split; try reflexivity. discriminate. Qed.
+(* It matters that hasattr is true WHEN _setup_vars looks: the same classes with
+   nothing bound yet (an unbound tunable raises AttributeError: no preset) make
+   "gain" a request -- the robot's float is written over it; without a robot
+   "gain" the mode (there is no "auto_gain") stops a well-formed robot with the
+   injection error; a non-class annotation stops it with TypeError. *)
+Example C08_nv_unbound_attribute_would_be_requested :
+  (exists s, startup ex_sub (tuned_robot true (HType 4) []) = Ok s /\
+     attr_at (tuned_robot true (HType 4) []) (trace_of (tuned_robot true (HType 4) []) s) (TComp "tuned") "gain"
+       = Is (Some o_robot_gain)) /\
+  startup ex_sub (tuned_robot false (HType 4) []) = Err EInject /\
+  startup ex_sub (tuned_robot true HNonType []) = Err EType.
+Proof.
+  split; [|split]; [eexists; split; vm_compute; reflexivity|vm_compute; reflexivity|vm_compute; reflexivity].
+Qed.
+
 Print Assumptions C08_attr_exact.
 Print Assumptions C08_attr_exact_modes.
 Print Assumptions C08_injectables_are_attrs_and_all_components.
@@ -775,3 +880,5 @@ Print Assumptions C08_env_comp_fault_fails.
 Print Assumptions C08_env_ctor_fault_fails.
 Print Assumptions C08_env_attr_exact.
 Print Assumptions C08_env_attr_exact_modes.
+Print Assumptions C08_set_attr_never_written.
+Print Assumptions C08_set_attr_annotation_irrelevant.
